@@ -6,6 +6,8 @@ using P3 = pgm::PGMIndex<uint64_t, 16, 0, float>;
 ED_REGISTER("rd-pgm:u32:e4:r2", "rd-pgm", SearchReaders<uint32_t, P1, 4>)
 ED_REGISTER("rd-pgm:i64:e1:r65", "rd-pgm", SearchReaders<int64_t, P2, 1>)
 ED_REGISTER("rd-pgm:u64:e16:r0", "rd-pgm", SearchReaders<uint64_t, P3, 16>)
+using P4 = pgm::PGMIndex<uint64_t, 1, 0, float>;
+ED_REGISTER("rd-pgm:u64:e1:r0", "rd-pgm", SearchReaders<uint64_t, P4, 1>)
 using C1 = pgm::CompressedPGMIndex<uint32_t, 4, 2, float>;
 using C2 = pgm::CompressedPGMIndex<uint64_t, 8, 256, float>;
 ED_REGISTER("rd-comp:u32:e4:r2", "rd-comp", SearchReaders<uint32_t, C1, 4>)
